@@ -114,7 +114,7 @@ def run_pool(name, tier, d, via=None, actors=False, bots=False):
                     except Exception:
                         trid = 0
                     f.write(json.dumps({"tr": trid, "n": 999999, "ev": "crash", "a": {"note": p.stderr[-300:], "kind": "", "id": "", "ids": [], "joins": [], "blind": [], "seat": -2, "chips": 0, "amt": 0, "gc": 0, "gid": 0, "round": ""},
-                                        "res": "panic", "t": 0, "same": False, "pre": [], "st": {"status": "none"}}) + "\n")
+                                        "res": "panic", "t": 0, "same": False, "pre": [], "st": {"status": "none"}, "by": ""}) + "\n")
             else:
                 try:
                     s = json.loads([l for l in p.stdout.splitlines() if l.startswith("{")][-1])
